@@ -30,7 +30,7 @@ Guide(r, c) == CHOOSE g \in Guides(r, c) : TRUE
 \* kind 3: a = <<k, i1, off1, ..>> : offset < 0: node on the low side, at least |offset| from the line; > 0: high side
 BoundOK(r, c) == LET ms == AlMembers(c)
                      lo == {P(r, m[1], c.dim) - m[2] * S : m \in {m \in ms : m[2] < 0}}     \* centre + |off|  must be <= line
-                     hi == {P(r, m[1], c.dim) - m[2] * S : m \in {m \in ms : m[2] > 0}}     \* centre - off    must be >= line
+                     hi == {P(r, m[1], c.dim) - m[2] * S : m \in {m \in ms : m[2] >= 0}}    \* centre - off    must be >= line (offset 0: on or right of it)
                  IN  \A a \in lo, b \in hi : a <= b + TOL
 \* kind 4: a = <<minSep, eq, np, a1, a2, ..>> over earlier alignment constraints (0-based indices into r.cons)
 \* kind 5: a = <<sep, np, a1, a2, ..>> : consecutive guide lines exactly sep apart
@@ -51,7 +51,13 @@ C07Tags(r) ==
     IF r.thrown THEN {"exception"} ELSE
     LET rep == ToSet(r.reported) IN
     (IF \E i \in 1..r.n : r.pos[i][1] = SENT \/ r.pos[i][2] = SENT THEN {"non-finite-coordinate"} ELSE
-       {<<"unreported-constraint-violated", KindName(r.cons[i].kind)>> : i \in {i \in DOMAIN r.cons : i \notin rep /\ ~Holds(r, rep, r.cons[i])}})
+       \* a violated, unreported separation whose direct opponent (a separation over the same two nodes in the same dimension) was reported
+       \* although it holds: the unsatisfiable-constraint lists are filled by the descent steps only, not by the projection that
+       \* produces the final positions (ConstrainedFDLayout::moveTo)
+       {IF r.cons[i].kind = 1 /\ \E j \in rep : j \in DOMAIN r.cons /\ r.cons[j].kind = 1 /\ r.cons[j].dim = r.cons[i].dim
+                                               /\ {r.cons[j].a[1], r.cons[j].a[2]} = {r.cons[i].a[1], r.cons[i].a[2]} /\ SepOK(r, r.cons[j])
+        THEN <<"unreported-constraint-violated", "separation", "its-reported-opponent-holds">>
+        ELSE <<"unreported-constraint-violated", KindName(r.cons[i].kind)>> : i \in {i \in DOMAIN r.cons : i \notin rep /\ ~Holds(r, rep, r.cons[i])}})
     \cup (IF \E i \in 1..r.n : Abs(r.dim[i][1] - r.size[i][1] * S) > 1 \/ Abs(r.dim[i][2] - r.size[i][2] * S) > 1 THEN {"size-changed"} ELSE {})
 \* ---- overlap avoidance and cluster containment (C08) -----------------------------
 OvTol == (S \div 1000) + 2                       \* 1e-3
@@ -66,10 +72,14 @@ BoxesOverlap(r, A, B) == \A d \in {1, 2} : (IF BoxHi(r, A, d) < BoxHi(r, B, d) T
 C08Tags(r) ==
     IF r.thrown \/ r.reported # <<>> \/ r.flags % 2 = 0 \/ (r.flags \div 2) % 2 = 0 \/ (\E i \in 1..r.n : r.pos[i][1] = SENT \/ r.pos[i][2] = SENT) THEN {} ELSE
     (IF \E i \in 1..r.n, j \in 1..r.n : i < j /\ ~Exempt(r, i, j) /\ Overlap(r, i, j) THEN {"nodes-overlap"} ELSE {})
-    \cup (IF \E a \in DOMAIN r.clusters, b \in DOMAIN r.clusters : a < b /\ r.clusters[a].nodes # <<>> /\ r.clusters[b].nodes # <<>>
-                 /\ BoxesOverlap(r, ToSet(r.clusters[a].nodes), ToSet(r.clusters[b].nodes)) THEN {"sibling-clusters-overlap"} ELSE {})
-    \cup (IF \E a \in DOMAIN r.clusters, i \in 1..r.n : r.clusters[a].nodes # <<>> /\ i \notin ToSet(r.clusters[a].nodes) /\ BoxesOverlap(r, ToSet(r.clusters[a].nodes), {i})
-          THEN {"foreign-node-inside-cluster"} ELSE {})
+    \* cluster hierarchy: the members of a cluster are its own nodes and those of its descendants (parent = 0: child of the root)
+    \cup (LET RECURSIVE Anc(_, _)
+               Anc(a, b) == b # 0 /\ (r.clusters[b].parent = a \/ Anc(a, r.clusters[b].parent))          \* a is a proper ancestor of b
+               Mem(a) == ToSet(r.clusters[a].nodes) \cup UNION {ToSet(r.clusters[b].nodes) : b \in {b \in DOMAIN r.clusters : Anc(a, b)}}
+           IN  (IF \E a \in DOMAIN r.clusters, b \in DOMAIN r.clusters : a < b /\ r.clusters[a].parent = r.clusters[b].parent /\ Mem(a) # {} /\ Mem(b) # {}
+                        /\ BoxesOverlap(r, Mem(a), Mem(b)) THEN {"sibling-clusters-overlap"} ELSE {})
+               \cup (IF \E a \in DOMAIN r.clusters, i \in 1..r.n : Mem(a) # {} /\ i \notin Mem(a) /\ BoxesOverlap(r, Mem(a), {i})
+                     THEN {"foreign-node-inside-cluster"} ELSE {}))
 Tags(r) == IF Data.which = "C07" THEN C07Tags(r) ELSE C08Tags(r)
 NonTrivial(r) == ~r.thrown /\ (IF Data.which = "C07" THEN r.cons # <<>> ELSE \E i \in 1..r.n, j \in 1..r.n : i < j /\ Abs(r.init[i][1] - r.init[j][1]) * 2 < r.size[i][1] + r.size[j][1] /\ Abs(r.init[i][2] - r.init[j][2]) * 2 < r.size[i][2] + r.size[j][2])
 VARIABLES k, phase, bad
